@@ -11,7 +11,7 @@ void h_checkBounds(void)
 {
   size_t offset = nondet_size_t(), needed = nondet_size_t(), total = nondet_size_t();
   __CPROVER_assume(offset <= DN_MAX_MSG + 1 && needed <= 65535 && total <= DN_MAX_MSG);
-  iora_exc = EXC_NONE;
+  IORA_TRUE = 1; iora_exc = EXC_NONE;
   checkBounds(offset, needed, total);
   IORA_CANARY("h_checkBounds: returns");
   /* CB1 */ __CPROVER_assert((needed > total || offset > total - needed) ==> iora_exc == EXC_DnsParseException, "CB1 range not inside the buffer is a reported error");
@@ -24,7 +24,7 @@ void h_readUint(void)
   __CPROVER_assume(size >= 4 && size <= DN_MAX_MSG && offset <= size - 4);
   uint8_t *data = malloc(size);
   __CPROVER_assume(data != 0);
-  iora_exc = EXC_NONE;
+  IORA_TRUE = 1; iora_exc = EXC_NONE;
   uint16_t a = readUint16(data, offset + 2);      /* the last two bytes of the buffer are readable */
   uint32_t b = readUint32(data, offset);
   IORA_CANARY("h_readUint: returns");
@@ -97,7 +97,9 @@ void h_step(void)
   __CPROVER_assume(size >= 1 && size <= DN_MAX_MSG);
   uint8_t *data = malloc(size);
   __CPROVER_assume(data != 0);
-  iora_ostr name; iora_u16set vp;                 /* uninitialised locals: arbitrary values */
+  iora_ostr name; iora_u16set vp;                 /* arbitrary values; _Bool fields assigned explicitly (a nondet byte may be neither 0 nor 1) */
+  name.n = nondet_size_t(); vp.count = nondet_size_t();
+  vp.has_gv = nondet_bool(); vp.q_valid = nondet_bool(); vp.q_res = nondet_bool();
   size_t offset = nondet_size_t(), orig = nondet_size_t(), tl = nondet_size_t();
   bool jumped = nondet_bool();
   int step = STEP_CONTINUE;
